@@ -38,7 +38,10 @@ def run(ck, ctx):
         "splits the parse result exhaustively and disjointly into declared fields and table_properties; (T-MODE.hooks) code that "
         "runs only in some modes (overrides of the BaseData hooks in dialect classes, helpers they call, branches comparing the "
         "mode with a literal) writes / deletes no common table field or common column attribute other than the documented "
-        "schema->dataset rename, and the in-place reference hook receives a per-column copy.")
+        "schema->dataset rename, and the in-place reference hook receives a per-column copy. (O-mode) Output.format is evaluated "
+        "abstractly (object-capable interpreter) on a spread of the distinct tables produced by the columns+constraints fixed point in "
+        "all 15 modes, and on the tables of the ten clause groups in the default, the owning and an unrelated mode: no mode raises, "
+        "every common field equals the default mode's, dialect keys are at top level only in documented modes.")
     # ---- the mode table
     got = set(dc.dialect_by_name)
     ck.ob("T-MODE.table", "dialect_by_name = the 15 documented modes", got == MODES,
@@ -119,6 +122,13 @@ def run(ck, ctx):
     _check_partition(ck, ctx)
     # ---- T-MODE.hooks
     _check_hooks(ck, ctx, dc)
+    # ---- the output layer evaluated abstractly in every mode on the tables of the fixed points
+    from ..rules.fragments import run_fragments
+    from ..specs.clauses import GROUPS
+    jobs = [dict(module="table", label="constraints", only_rules={"O-mode", "O-final"},
+                 build_kw=dict(tier=ck.tier, constraints=True, set_null=False, final=("modes",)))]
+    jobs += [dict(module="clauses", only_rules={"O-mode", "O-final"}, build_kw=dict(group=g, tier=ck.tier, final=("modes",))) for g in GROUPS]
+    run_fragments(ck, ctx, jobs)
     ck.assumptions += ["dataclasses' field-collection rule (reverse MRO overlay) and Field.metadata semantics as in CPython 3.12",
                        "declined: deep equality of values across modes at run time; it follows from non-interference (T-FLAGFLOW) plus "
                        "the mode-specific code touching only non-common keys (T-MODE.hooks)"]
